@@ -473,6 +473,90 @@ Proof.
   rewrite E. unfold decrypt_token. rewrite padding_of_alg_of, HD, HL. reflexivity.
 Qed.
 
+(* ================= the server: authenticate_username_identity_token ================= *)
+Section Auth.
+  Variable R : Type.
+  Variable k : nat.
+  Variable enc : padding -> R -> list Z -> option (list Z).
+  Variable dec : padding -> list Z -> option (list Z).
+  (* what the server answers to a password [pw] encrypted for the nonce [nonce] when the session's
+     nonce is [nonce']: the comparison of the configured password with [expected] *)
+  Definition auth_expected (stored : option (list Z)) (pw nonce nonce' : list Z) : outcome unit :=
+    match expected pw nonce nonce' with
+    | Ok pw' => match stored with Some s => if list_eqb s pw' then Ok tt else Err | None => Err end
+    | Err => Err
+    | Panic => Panic
+    end.
+  Theorem authenticate_encrypt pol rs pw nonce nonce' stored :
+    enc_dec_law R k enc dec -> dec_len_law k dec -> (overhead (padding_of pol) < k)%nat ->
+    Z.of_nat (length (pw ++ nonce)) < 2 ^ 32 ->
+    exists ct, password_encrypt R k enc (padding_of pol) rs pw nonce = Ok ct /\
+      authenticate k dec (alg_of pol) (Some ct) nonce' stored = auth_expected stored pw nonce nonce'.
+  Proof.
+    intros He Hd Hk Hs.
+    destruct (decrypt_encrypt R k enc dec (padding_of pol) rs pw nonce nonce' He Hd Hk Hs) as [ct [E [_ D]]].
+    exists ct. split; [exact E|]. unfold authenticate, auth_expected, decrypt_token.
+    rewrite padding_of_alg_of, D. reflexivity.
+  Qed.
+
+  (* the session's own nonce: activated iff the user exists and the password is the configured one *)
+  Theorem authenticate_same_nonce pol rs pw nonce stored :
+    enc_dec_law R k enc dec -> dec_len_law k dec -> (overhead (padding_of pol) < k)%nat ->
+    Z.of_nat (length (pw ++ nonce)) < 2 ^ 32 -> utf8_valid pw = true ->
+    exists ct, password_encrypt R k enc (padding_of pol) rs pw nonce = Ok ct /\
+      (authenticate k dec (alg_of pol) (Some ct) nonce stored = Ok tt <-> stored = Some pw) /\
+      authenticate k dec (alg_of pol) (Some ct) nonce stored <> Panic.
+  Proof.
+    intros He Hd Hk Hs Hu.
+    destruct (authenticate_encrypt pol rs pw nonce nonce stored He Hd Hk Hs) as [ct [E A]].
+    exists ct. split; [exact E|]. rewrite A. unfold auth_expected. rewrite expected_same by exact Hu.
+    destruct stored as [s|].
+    - destruct (list_eqb s pw) eqn:Es.
+      + apply list_eqb_eq in Es. subst s. split; [split; reflexivity | discriminate].
+      + split; [|discriminate]. split; [discriminate|]. intro H. inversion H; subst.
+        rewrite list_eqb_refl in Es. discriminate.
+    - split; [split; discriminate | discriminate].
+  Qed.
+
+  (* another nonce of the same length (every nonce the server hands out has one length): refused,
+     whatever the user and the configured password are - an empty configured password included *)
+  Theorem authenticate_other_nonce pol rs pw nonce nonce' stored :
+    enc_dec_law R k enc dec -> dec_len_law k dec -> (overhead (padding_of pol) < k)%nat ->
+    Z.of_nat (length (pw ++ nonce)) < 2 ^ 32 -> length nonce' = length nonce -> nonce' <> nonce ->
+    exists ct, password_encrypt R k enc (padding_of pol) rs pw nonce = Ok ct /\
+      authenticate k dec (alg_of pol) (Some ct) nonce' stored = Err.
+  Proof.
+    intros He Hd Hk Hs Hl Hn.
+    destruct (authenticate_encrypt pol rs pw nonce nonce' stored He Hd Hk Hs) as [ct [E A]].
+    exists ct. split; [exact E|]. rewrite A. unfold auth_expected.
+    rewrite expected_other_same_length by assumption. reflexivity.
+  Qed.
+
+  (* any token password bytes at all: Ok or Err *)
+  Theorem authenticate_total a secret nonce stored : dec_len_law k dec ->
+    authenticate k dec a secret nonce stored <> Panic.
+  Proof.
+    intro Hd. unfold authenticate. pose proof (decrypt_token_total k dec a secret nonce Hd) as H.
+    destruct (decrypt_token k dec a secret nonce); [|discriminate|contradiction].
+    destruct stored as [s|]; [destruct (list_eqb s a0)|]; discriminate.
+  Qed.
+End Auth.
+
+Lemma run_auth kz pol stored pw n n' :
+  66 < kz -> Z.of_nat (length (pw ++ n)) < 2 ^ 32 ->
+  run (Auth kz pol stored pw n n') =
+  [match expected pw n n' with
+   | Ok pw' => match stored with Some s => if list_eqb s pw' then 0 else 1 | None => 1 end
+   | Err => 1 | Panic => -2 end].
+Proof.
+  intros Hk Hsz. cbn [run]. pose proof (overhead_bounds (padding_of pol)) as Ho.
+  destruct (authenticate_encrypt unit (Z.to_nat kz) (toy_enc (Z.to_nat kz)) (toy_dec (Z.to_nat kz)) pol
+              (fun _ => tt) pw n n' stored (toy_enc_dec_law _) (toy_dec_len_law _) ltac:(lia) Hsz) as [ct [E A]].
+  rewrite E, A. unfold auth_expected.
+  destruct (expected pw n n') as [pw'| |]; [|reflexivity|reflexivity].
+  destruct stored as [s|]; [destruct (list_eqb s pw')|]; reflexivity.
+Qed.
+
 Definition blk (k : nat) (p : padding) (o : option (list Z)) : list Z :=
   match o with Some pl => toy_block k p pl | None => bad_block k end.
 
@@ -563,7 +647,7 @@ Qed.
 
 Theorem oracle_holds c : valid c = true -> known c = 0 -> oracle c (run c) = true.
 Proof.
-  destruct c as [kz pol pw n n'|kz p null clen tr n']; intros Hv Hk.
+  destruct c as [kz pol pw n n'|kz p null clen tr n'|uri null bytes n'|kz pol stored pw n n']; intros Hv Hk.
   - cbn [valid] in Hv. apply andb_true_iff in Hv as [Hv Hsz]. apply andb_true_iff in Hv as [Hkz Hutf].
     apply Z.ltb_lt in Hkz. apply Z.ltb_lt in Hsz.
     assert (Hsz' : Z.of_nat (length (pw ++ n)) < 2 ^ 32) by (rewrite app_length; lia).
@@ -582,6 +666,34 @@ Proof.
         -- reflexivity.
         -- exfalso. revert Ee. unfold expected. destruct (is_suffix _ _); [destruct (utf8_valid (firstn _ _))|]; discriminate.
   - rewrite run_crafted by exact Hv. cbn [oracle]. apply list_eqb_refl.
+  - cbn [run oracle]. unfold decrypt_token_other, plaintext_password.
+    destruct ((uri =? 0) || (uri =? 1)); [|reflexivity].
+    destruct null; cbn [utf8_valid encode].
+    + reflexivity.
+    + destruct (utf8_valid bytes) eqn:E; cbn [encode]; [|reflexivity].
+      cbn [list_eqb]. rewrite Z.eqb_refl, list_eqb_refl. cbn. destruct bytes; reflexivity.
+  - cbn [valid] in Hv. apply andb_true_iff in Hv as [Hv Hsz]. apply andb_true_iff in Hv as [Hkz Hutf].
+    apply Z.ltb_lt in Hkz. apply Z.ltb_lt in Hsz.
+    assert (Hsz' : Z.of_nat (length (pw ++ n)) < 2 ^ 32) by (rewrite app_length; lia).
+    rewrite run_auth by assumption. cbn [oracle known] in *.
+    destruct (list_eqb n n') eqn:En.
+    + apply list_eqb_eq in En. subst n'. rewrite expected_same by exact Hutf. cbn [andb].
+      destruct stored as [s|]; [destruct (list_eqb s pw)|]; reflexivity.
+    + cbn [andb]. destruct (suffix_class pw n n') eqn:Hc; [discriminate|].
+      destruct (expected pw n n') as [pw'| |] eqn:Ee.
+      * assert (Hex : exists pw', expected pw n n' = Ok pw') by eauto.
+        apply expected_other in Hex; [congruence | exact En].
+      * reflexivity.
+      * exfalso. revert Ee. unfold expected. destruct (is_suffix _ _); [destruct (utf8_valid (firstn _ _))|]; discriminate.
+Qed.
+
+(* the token level is total for EVERY algorithm string: the three RSA URIs ([decrypt_token_total]),
+   a null or empty one (plain text) and any other *)
+Theorem decrypt_token_other_total uri secret : decrypt_token_other uri secret <> Panic.
+Proof.
+  unfold decrypt_token_other, plaintext_password.
+  destruct ((uri =? 0) || (uri =? 1)); [|discriminate].
+  destruct (utf8_valid _); discriminate.
 Qed.
 
 (* ================= the code before the fixes, and the known class ================= *)
